@@ -561,6 +561,12 @@ def run(chk):
         lcases.append(("b.format", f'format({lit(a)}, "{text}")', f"int b.format {a} {spec_model_args(sp)}", format_oracle(a, sp), (a, text)))
         lcases.append(("b.to_str", f"to_str({lit(a)})", f"int b.to_str {a}", dump_str(str(a)), (a,)))
         lcases.append(("route.text", f"to_int(to_str({lit(a)})) == {lit(a)}", None, o_bool(True), (a,)))
+        lcases.append(("route.format_empty", f'format({lit(a)}, "") == to_str({lit(a)})', None, o_bool(True), (a,)))
+        b2 = rng.choice(pool)
+        lcases.append(("route.divmod", f"div_floor({lit(a)}, {lit(b2)}) * {lit(b2)} + {lit(a)} % {lit(b2)} == {lit(a)}", None,
+                       ERR if b2 == 0 else o_bool(True), (a, b2)))
+        lcases.append(("route.divceil", f"div_ceil({lit(a)}, {lit(b2)}) == -div_floor(-{lit(a)}, {lit(b2)})", None,
+                       ERR if b2 == 0 else o_bool(True), (a, b2)))
         r2 = rng.choice([("x", 16), ("o", 8), ("b", 2), ("", 10)])
         lcases.append(("route.format", f'to_int(format({lit(a)}, "{r2[0]}"), {r2[1]}) == {lit(a)}', None, o_bool(True), (a, r2[1])))
     # float conversions and chr (Python oracle only; float results are outside the Lean model)
